@@ -3,11 +3,14 @@ CONSTANTS
   Caps = {42}
   NSmall = {0}
   PortClasses = {"plain"}
-  DhcpCodes = {1, 3, 6, 12, 33, 51, 121}
+  DhcpCodes = {1, 3, 6, 12, 33, 43, 51, 121}
   MaxOpts = 4
-  ReqCodes = {1, 3, 6, 12, 53}
+  ReqCodes = {1, 3, 6, 43, 53}
   MaxReq = 2
   DhcpCaps = {299, 300, 301, 1472}
+  BigCode = 43
+  BigLens = {0, 1, 64, 254, 255}
+  IdClasses = {"rand"}
   NICs = {"nicA"}
   Parts = {"dhcp"}
 INVARIANTS Export ModelOK
